@@ -762,6 +762,177 @@ Section Inv.
              now apply take_app_le.
   Qed.
 
+  (* ---- collect_stored_range (mod.rs:220) returns the stored slice ---------------------------------------- *)
+  Lemma vals_nil' : vals [] = [].
+  Proof. reflexivity. Qed.
+  Lemma slice_nil {A} a b : slice a b (@nil A) = [].
+  Proof. unfold slice, take, drop. now rewrite skipn_nil, firstn_nil. Qed.
+  Lemma drop_app_split {A} k (a b : list A) : drop k (a ++ b) = drop k a ++ drop (k - len a) b.
+  Proof. unfold drop, len. rewrite skipn_app. f_equal. f_equal. lia. Qed.
+  Lemma take_app_split' {A} k (a b : list A) : take k (a ++ b) = take k a ++ take (k - len a) b.
+  Proof. unfold take, len. rewrite firstn_app. f_equal. f_equal. lia. Qed.
+  Lemma slice_app {A} a b (x y : list A) :
+    slice a b (x ++ y) = slice a b x ++ slice (a - len x) (b - len x) y.
+  Proof.
+    unfold slice. rewrite drop_app_split, take_app_split'. f_equal. f_equal.
+    rewrite len_drop. lia.
+  Qed.
+  Lemma slice_min {A} a b (x : list A) : slice a (N.min b (len x)) x = slice a b x.
+  Proof.
+    unfold slice. destruct (N.le_gt_cases b (len x)); [now rewrite N.min_l by lia|].
+    rewrite N.min_r by lia. rewrite !take_all; auto; rewrite len_drop; lia.
+  Qed.
+
+  Lemma csr_pages_spec hb mem from to :
+    len hb = HEADER_OFFSET -> chain HEADER_OFFSET mem -> Forall ent_ok mem -> nlf mem ->
+    to <= len (vals mem) -> from <= to ->
+    forall n done todo, mem = done ++ todo -> allfull done -> N.of_nat n <= len todo ->
+    (n <> O -> (len done + N.of_nat n - 1) * PP < to) -> from < len done * PP + PP ->
+    (forall e t, todo = e :: t -> from - len done * PP <= len (e_vals e)) ->
+    csr_pages T size dec decompress (pgs mem) (hb ++ blobs mem) (len (vals mem)) from to (seqN (len done) n) =
+      Ok (slice (from - len done * PP) (to - len done * PP) (vals (take (N.of_nat n) todo))).
+  Proof.
+    intros Hh Hc Ho Hn Hto Hft. induction n as [|n IH]; intros done todo Hm Hd Hle Hlt Hfr Hfe.
+    - cbn [seqN csr_pages]. now rewrite take_0, vals_nil', slice_nil.
+    - destruct todo as [|e todo']; [rewrite len_nil in Hle; lia|].
+      cbn [seqN csr_pages].
+      replace (len (vals mem) <=? len done * PP) with false
+        by (symmetry; apply N.leb_gt; specialize (Hlt ltac:(discriminate)); nia).
+      assert (G : get (pgs mem) (len done) = Some (e_pg e)).
+      { rewrite Hm, pgs_app, get_app_r by (rewrite pgs_len; lia).
+        rewrite pgs_len, N.sub_diag. reflexivity. }
+      rewrite G.
+      assert (Oe : ent_ok e).
+      { rewrite Hm in Ho. apply Forall_app in Ho as [_ Ho]. now inversion Ho. }
+      assert (PD : page_data (hb ++ blobs mem) (e_pg e) = e_blob e).
+      { rewrite Hm. apply page_data_ent; [exact Hh|now rewrite <- Hm|exact Oe]. }
+      rewrite PD, (decode_ent e Oe). cbn [bind].
+      specialize (Hfe e todo' eq_refl). specialize (Hlt ltac:(discriminate)).
+      assert (Hlt0 : len done * PP < to) by nia.
+      replace (N.min (to - len done * PP) (len (e_vals e)) <? from - len done * PP) with false
+        by (symmetry; apply N.ltb_ge; lia).
+      replace (take (N.of_nat (S n)) (e :: todo')) with (e :: take (N.of_nat n) todo').
+      2:{ unfold take. rewrite !Nat2N.id. reflexivity. }
+      change (e :: take (N.of_nat n) todo') with ([e] ++ take (N.of_nat n) todo').
+      rewrite vals_app, vals_single, slice_app, slice_min.
+      destruct n as [|n'].
+      + cbn [seqN csr_pages bind]. now rewrite take_0, vals_nil', slice_nil.
+      + assert (Hne : todo' <> []).
+        { intros ->. rewrite len_cons, len_nil in Hle. lia. }
+        assert (Hfull : allfull (done ++ [e])).
+        { apply (Hn (done ++ [e]) todo'); [|exact Hne]. rewrite Hm. now rewrite <- app_assoc. }
+        pose proof Hfull as Hfull'. apply allfull_app in Hfull' as [_ Hfe1]. inversion Hfe1 as [|? ? Hpp _].
+        specialize (IH (done ++ [e]) todo').
+        rewrite len_app, len_cons, len_nil in IH. replace (len done + (1 + 0)) with (len done + 1) in IH by lia.
+        rewrite IH; [|rewrite Hm; now rewrite <- app_assoc|exact Hfull|rewrite len_cons in Hle; lia| | |].
+        * cbn [bind]. f_equal. f_equal. f_equal; lia.
+        * intros _. nia.
+        * nia.
+        * intros e2 t2 _. nia.
+  Qed.
+
+  Lemma slice_empty {A} a b (l : list A) : b <= a -> slice a b l = [].
+  Proof. intros. unfold slice. replace (b - a) with 0 by lia. apply take_0. Qed.
+
+  Lemma InvG_same s s' hd ents mem :
+    s_hdr s' = s_hdr s -> s_hdr_mod s' = s_hdr_mod s -> s_data s' = s_data s -> s_pg s' = s_pg s ->
+    s_stored_len s' = s_stored_len s -> InvG s hd ents mem -> InvG s' hd ents mem.
+  Proof. unfold InvG. intros -> -> -> -> ->. auto. Qed.
+
+  Lemma real_stored_len_mem s hd ents mem : InvG s hd ents mem ->
+    real_stored_len T size s = len (vals mem).
+  Proof.
+    intros HI. destruct (mem_wf _ _ _ _ HI) as (_ & Mo & Mn).
+    pose proof HI as (_ & _ & _ & _ & _ & _ & _ & _ & _ & B10 & _).
+    unfold real_stored_len. rewrite B10. now apply stored_len_pgs.
+  Qed.
+
+  Lemma csr_spec s hd ents mem from to : InvG s hd ents mem ->
+    collect_stored_range T size dec decompress s from to =
+      Ok (slice from (N.min to (len (vals mem))) (vals mem)).
+  Proof.
+    intros HI. destruct (mem_wf _ _ _ _ HI) as (Mc & Mo & Mn).
+    pose proof HI as (B1 & B2 & B3 & B4 & B5 & B6 & B7 & B8 & B9 & B10 & B11 & B12).
+    unfold collect_stored_range. rewrite (real_stored_len_mem _ _ _ _ HI).
+    destruct (to <=? from) eqn:E1.
+    { apply N.leb_le in E1. now rewrite slice_empty by lia. }
+    apply N.leb_gt in E1.
+    remember (N.min to (len (vals mem))) as to' eqn:Eto'.
+    destruct (to' <=? from) eqn:E2.
+    { apply N.leb_le in E2. now rewrite slice_empty by lia. }
+    apply N.leb_gt in E2.
+    assert (Hto' : to' <= len (vals mem)) by (rewrite Eto'; lia).
+    assert (Hme : mem = ents).
+    { destruct B11 as [[_ ?]|[_ Hm0]]; [auto|]. rewrite Hm0, vals_nil', len_nil in Hto'. lia. }
+    pose proof PP_pos as Hpp. pose proof (vals_le mem Mo) as Hvl.
+    pose proof (N.div_mod from PP ltac:(lia)) as D1. pose proof (N.mod_lt from PP ltac:(lia)) as D2.
+    pose proof (N.div_mod (to' - 1) PP ltac:(lia)) as D3. pose proof (N.mod_lt (to' - 1) PP ltac:(lia)) as D4.
+    remember (from / PP) as sp eqn:Esp. remember ((to' - 1) / PP) as ep eqn:Eep.
+    remember (from mod PP) as r1 eqn:Er1. remember ((to' - 1) mod PP) as r2 eqn:Er2.
+    remember (len (vals mem)) as V eqn:EV. remember (len mem) as L eqn:EL.
+    assert (Hsp : sp < L) by (clear - D1 D2 E2 Hto' Hvl Hpp; nia).
+    assert (Hep : ep < L) by (clear - D3 D4 E2 Hto' Hvl Hpp; nia).
+    assert (Hse : sp <= ep) by (clear - D1 D2 D3 D4 E2 Hpp; nia).
+    assert (A1 : sp * PP <= from) by (clear - D1; nia).
+    assert (A2 : from < sp * PP + PP) by (clear - D1 D2; nia).
+    assert (A3 : ep * PP < to') by (clear - D3 E2; nia).
+    assert (A4 : to' <= (ep + 1) * PP) by (clear - D3 D4 E2; nia).
+    subst V L. clear Esp Eep Er1 Er2 D1 D2 D3 D4 r1 r2 Eto' E1.
+    assert (Hs : mem = take sp mem ++ drop sp mem) by (symmetry; apply take_drop).
+    remember (take sp mem) as done eqn:Ed. remember (drop sp mem) as todo eqn:Et.
+    assert (Ld : len done = sp) by (rewrite Ed, len_take; lia).
+    assert (Lt : len todo = len mem - sp) by (rewrite Et; apply len_drop).
+    assert (Htn : todo <> []) by (intros ->; rewrite len_nil in Lt; lia).
+    assert (Hdf : allfull done) by (eapply Mn; [exact Hs|exact Htn]).
+    rewrite B10, B4, <- Hme, <- Ld.
+    rewrite (csr_pages_spec (map CB (header_to_bytes hd)) mem from to'
+               ltac:(now rewrite len_map, len_header_to_bytes) Mc Mo Mn Hto' ltac:(lia)
+               (N.to_nat (ep + 1 - len done)) done todo Hs Hdf).
+    - rewrite N2Nat.id, Ld. f_equal.
+      rewrite Hs. rewrite vals_app, slice_app_r by (rewrite (vals_allfull done Hdf), Ld; exact A1).
+      rewrite (vals_allfull done Hdf), Ld.
+      rewrite <- (take_drop (ep + 1 - sp) todo) at 2. rewrite vals_app.
+      symmetry. apply slice_app_l.
+      destruct (N.eq_dec (ep + 1 - sp) (len todo)) as [Heq|Hneq].
+      + rewrite take_all by lia. rewrite Hs, vals_app, len_app, (vals_allfull done Hdf) in Hto'. lia.
+      + assert (Hf : allfull (take (ep + 1 - sp) todo)).
+        { apply (nlf_suffix done todo ltac:(rewrite <- Hs; exact Mn) (take (ep + 1 - sp) todo) (drop (ep + 1 - sp) todo));
+            [symmetry; apply take_drop|].
+          intros Hd0. apply (f_equal len) in Hd0. rewrite len_drop, len_nil in Hd0. lia. }
+        rewrite (vals_allfull _ Hf), len_take, N.min_l by lia.
+        clear - A4 Hse. nia.
+    - rewrite N2Nat.id. lia.
+    - intros _. rewrite N2Nat.id, Ld. replace (sp + (ep + 1 - sp) - 1) with ep by lia. exact A3.
+    - rewrite Ld. exact A2.
+    - intros e t Het.
+      assert (Oe : ent_ok e).
+      { rewrite Hs, Het in Mo. apply Forall_app in Mo as [_ Mo]. now inversion Mo. }
+      destruct t as [|e2 t2].
+      + rewrite Hs, Het, vals_app, len_app, (vals_allfull done Hdf), vals_single, Ld in Hto'. lia.
+      + assert (Hf : allfull (done ++ [e])).
+        { apply (Mn (done ++ [e]) (e2 :: t2)); [|discriminate]. rewrite Hs, Het. now rewrite <- app_assoc. }
+        apply allfull_app in Hf as [_ Hf]. inversion Hf as [|? ? Hpe _]. rewrite Ld. lia.
+  Qed.
+
+  (* ---- serialize_changes never fails on a well-formed vector ---------------------------------------------- *)
+  Definition ser_tv (s : cvs) (mem : list ent) : list T :=
+    if 0 <? s_prev_stored_len s - s_stored_len s
+    then slice (s_stored_len s) (N.min (s_prev_stored_len s) (len (vals mem))) (vals mem) else [].
+  Definition ser_bytes (s : cvs) (tv : list T) : list N :=
+    u64b (cv_stamp s) ++ u64b (s_prev_stored_len s) ++ u64b (s_stored_len s)
+    ++ u64b (s_prev_stored_len s - s_stored_len s) ++ values_to_bytes tv
+    ++ u64b (len (s_prev_pushed s)) ++ values_to_bytes (s_prev_pushed s)
+    ++ u64b (len (s_pushed s)) ++ values_to_bytes (s_pushed s).
+
+  Lemma serialize_eq s hd ents mem : InvG s hd ents mem ->
+    serialize_changes T size enc dec decompress s = Ok (ser_bytes s (ser_tv s mem)).
+  Proof.
+    intros HI. unfold serialize_changes, ser_tv.
+    destruct (0 <? s_prev_stored_len s - s_stored_len s).
+    - rewrite (csr_spec _ _ _ _ _ _ HI). reflexivity.
+    - reflexivity.
+  Qed.
+
   (* ---- the reference vector (SPEC) and the refinement relation ------------------------------------------ *)
   Notation op := (op T).
   Notation cv_step := (cv_step T size enc dec compress decompress fmt vver).
@@ -777,16 +948,27 @@ Section Inv.
     | Reset => mkSpec [] 0 (a_saved a) (a_saved_stamp a)
     | Reimport => mkSpec (a_saved a) (a_saved_stamp a) (a_saved a) (a_saved_stamp a)
     | StampedWrite st _ => mkSpec (a_cur a) st (a_cur a) st
+    | Rollback | RollbackBefore _ => a        (* not part of this reference: see the C04 section below *)
     end.
   Definition spec_run (a : spec) (h : list op) : spec := fold_left spec_step h a.
   Definition spec_init : spec := mkSpec [] 0 [] 0.
 
-  Definition op_ok (o : op) : Prop := match o with StampedWrite st _ => st < two64 | _ => True end.
+  (* histories of C03/C07: every operation but the rollbacks (those are C04, below) *)
+  Definition op_ok (o : op) : Prop :=
+    match o with StampedWrite st _ => st < two64 | Rollback | RollbackBefore _ => False | _ => True end.
 
   Definition RG (s : cvs) (a : spec) hd ents mem : Prop :=
     InvG s hd ents mem /\ a_cur a = view s mem /\ a_stamp a = h_stamp (s_hdr s) /\
     a_saved a = vals ents /\ a_saved_stamp a = h_stamp hd.
   Definition R (s : cvs) (a : spec) : Prop := exists hd ents mem, RG s a hd ents mem.
+
+  Lemma RG_same s s' a hd ents mem :
+    s_hdr s' = s_hdr s -> s_hdr_mod s' = s_hdr_mod s -> s_data s' = s_data s -> s_pg s' = s_pg s ->
+    s_stored_len s' = s_stored_len s -> s_pushed s' = s_pushed s -> RG s a hd ents mem -> RG s' a hd ents mem.
+  Proof.
+    intros E1 E2 E3 E4 E5 E6 (HI & R1 & R2 & R3 & R4).
+    split; [eapply InvG_same; eauto|]. unfold view. rewrite E1, E5, E6. auto.
+  Qed.
 
   Lemma take_take {A} n m (l : list A) : n <= m -> take n (take m l) = take n l.
   Proof. intros. unfold take. rewrite firstn_firstn. f_equal. lia. Qed.
@@ -850,7 +1032,7 @@ Section Inv.
   Proof.
     intros (hd & ents & mem & HR) Hok HS. pose proof HR as (HI & R1 & R2 & R3 & R4).
     pose proof HI as (B1 & B2 & B3 & B4 & B5 & B6 & B7 & B8 & B9 & B10 & B11 & B12).
-    destruct o as [vs|n|hints|hints| | |st hints]; cbn [CvModel.cv_step] in HS.
+    destruct o as [vs|n|hints|hints| | |st hints| |st]; cbn [CvModel.cv_step] in HS; try (now destruct Hok).
     - (* Push *)
       inversion HS; subst s' r. right. exists false.
       assert (I' : InvG (set_pushed s (s_pushed s ++ vs)) hd ents mem) by exact HI.
@@ -895,7 +1077,7 @@ Section Inv.
       inversion HS; subst s' r. right. exists false. split; [reflexivity|].
       assert (G : InvG (cv_reset s) hd ents [] /\ h_stamp (s_hdr (cv_reset s)) = 0 /\ view (cv_reset s) [] = []).
       { unfold cv_reset, update_stamp.
-        set (s3 := mkCvs _ _ _ _ 0 [] [] 0).
+        set (s3 := mkCvs _ _ _ _ 0 [] [] 0 _ _).
         assert (D : s_data s3 = s_data s /\ s_hdr s3 = s_hdr s /\ s_hdr_mod s3 = s_hdr_mod s /\
                     pg_disk (s_pg s3) = pg_disk (s_pg s) /\ pg_vec (s_pg s3) = [] /\
                     pg_change_at (s_pg s3) = Some 0).
@@ -921,7 +1103,7 @@ Section Inv.
     - (* Reimport *)
       assert (Himp : cv_import T size fmt vver (s_data s) (pg_disk (s_pg s)) =
                      Ok (mkCvs hd false (s_data s) (mkPages (pgs ents) None (pg_disk (s_pg s)))
-                               (len (vals ents)) [] [] (len (vals ents)))).
+                               (len (vals ents)) [] [] (len (vals ents)) 0 None)).
       { unfold cv_import.
         assert (L : len (s_data s) = HEADER_OFFSET + len (blobs ents))
           by (rewrite B4, len_app, len_map, len_header_to_bytes; reflexivity).
@@ -939,19 +1121,30 @@ Section Inv.
           pose proof (chain_start_le _ _ B7) as Hle. eapply Forall_forall in Hle; [|exact He].
           cbn beta in Hle. rewrite L in B5. unfold ends in Hle.
           assert (MAX_RESERVED_SIZE < two64) by reflexivity. lia. }
-      rewrite Himp in HS. inversion HS; subst s' r. right. exists false. split; [reflexivity|].
-      assert (I' : InvG (mkCvs hd false (s_data s) (mkPages (pgs ents) None (pg_disk (s_pg s)))
-                               (len (vals ents)) [] [] (len (vals ents))) hd ents ents).
-      { unfold InvG. cbn [s_hdr s_hdr_mod s_data s_pg s_stored_len pg_vec pg_disk pg_change_at].
+      unfold cv_import_k in HS. rewrite Himp in HS. cbn [bind] in HS.
+      inversion HS; subst s' r. right. exists false. split; [reflexivity|].
+      assert (I' : InvG (set_roll (mkCvs hd false (s_data s) (mkPages (pgs ents) None (pg_disk (s_pg s)))
+                               (len (vals ents)) [] [] (len (vals ents)) 0 None) (s_ssc s) (s_changes s)) hd ents ents).
+      { unfold InvG. cbn [set_roll s_hdr s_hdr_mod s_data s_pg s_stored_len pg_vec pg_disk pg_change_at].
         repeat split; auto; try apply B2. lia. }
       exists hd, ents, ents. split; [exact I'|]. cbn [spec_step a_cur a_stamp a_saved a_saved_stamp].
       repeat split; auto.
       unfold view. cbn. rewrite app_nil_r, take_all by lia. exact R3.
-    - (* StampedWrite *)
-      cbn [op_ok] in Hok.
-      destruct (update_stamp_ok s a hd ents mem st HR Hok) as (HR' & Hst).
-      destruct (write_R _ _ _ _ _ _ _ _ HR' HS) as [->|(b & -> & W)]; [now left|right].
-      exists b. split; [reflexivity|exact W].
+    - (* StampedWrite = stamped_write_with_changes *)
+      cbn [op_ok] in Hok. unfold cv_commit in HS.
+      destruct (s_ssc s =? 0).
+      + destruct (update_stamp_ok s a hd ents mem st HR Hok) as (HR' & Hst).
+        destruct (write_R _ _ _ _ _ _ _ _ HR' HS) as [->|(b & -> & W)]; [now left|right].
+        exists b. split; [reflexivity|exact W].
+      + rewrite (serialize_eq _ _ _ _ HI) in HS.
+        set (s1 := set_roll s (s_ssc s) _) in HS.
+        assert (HR1 : RG s1 a hd ents mem) by (eapply RG_same; [..|exact HR]; reflexivity).
+        destruct (update_stamp_ok s1 a hd ents mem st HR1 Hok) as (HR' & Hst).
+        destruct (cv_write (update_stamp s1 st) hints) as [s2 r2] eqn:EW.
+        destruct (write_R _ _ _ _ _ _ _ _ HR' EW) as [->|(b & -> & (hd2 & ents2 & mem2 & W))].
+        * inversion HS. now left.
+        * inversion HS; subst s' r. right. exists b. split; [reflexivity|].
+          exists hd2, ents2, mem2. eapply RG_same; [..|exact W]; reflexivity.
   Qed.
 
   (* ---- all histories ------------------------------------------------------------------------------------ *)
@@ -1152,5 +1345,591 @@ Section Inv.
           apply andb_false_iff in C as [C|C].
           -- destruct (Ec C) as (Efull & _). pose proof (N.mod_lt (s_stored_len s) PP ltac:(lia)). nia.
           -- apply N.eqb_neq in C. rewrite Ecnt in C. nia.
+  Qed.
+  (* ---- reads: collect() = read_into_at(0, len) returns the logical contents ---------------------------------- *)
+  Lemma take_app_split {A} k (a b : list A) : take k (a ++ b) = take k a ++ take (k - len a) b.
+  Proof.
+    unfold take, len. rewrite firstn_app. f_equal. f_equal. lia.
+  Qed.
+
+  Lemma vals_nil : vals [] = [].
+  Proof. reflexivity. Qed.
+  Lemma take_nil {A} k : take k (@nil A) = [].
+  Proof. unfold take. apply firstn_nil. Qed.
+
+  Lemma read_pages_spec hb mem to : 
+    len hb = HEADER_OFFSET -> chain HEADER_OFFSET mem -> Forall ent_ok mem -> nlf mem ->
+    forall n done todo, mem = done ++ todo -> allfull done -> N.of_nat n <= len todo ->
+    read_pages T size dec decompress (pgs mem) (hb ++ blobs mem) to (seqN (len done) n) =
+      Ok (take (to - len done * PP) (vals (take (N.of_nat n) todo))).
+  Proof.
+    intros Hh Hc Ho Hn. induction n as [|n IH]; intros done todo Hm Hd Hle.
+    - cbn [seqN read_pages]. now rewrite take_0, vals_nil, take_nil.
+    - destruct todo as [|e todo']; [rewrite len_nil in Hle; lia|].
+      cbn [seqN read_pages].
+      assert (G : get (pgs mem) (len done) = Some (e_pg e)).
+      { rewrite Hm, pgs_app, get_app_r by (rewrite pgs_len; lia).
+        rewrite pgs_len, N.sub_diag. reflexivity. }
+      rewrite G.
+      assert (Oe : ent_ok e).
+      { rewrite Hm in Ho. apply Forall_app in Ho as [_ Ho]. now inversion Ho. }
+      assert (PD : page_data (hb ++ blobs mem) (e_pg e) = e_blob e).
+      { rewrite Hm. apply page_data_ent; [exact Hh|now rewrite <- Hm|exact Oe]. }
+      rewrite PD.
+      rewrite (decode_ent e Oe).
+      pose proof Oe as (_ & Ecnt & _ & _). rewrite Ecnt.
+      replace (page_is_raw (e_pg e) && (len (e_vals e) <? N.min (to - len done * PP) (len (e_vals e)))) with false
+        by (symmetry; apply andb_false_iff; right; apply N.ltb_ge; lia).
+      replace (take (N.of_nat (S n)) (e :: todo')) with (e :: take (N.of_nat n) todo').
+      2:{ unfold take. rewrite !Nat2N.id. reflexivity. }
+      change (e :: take (N.of_nat n) todo') with ([e] ++ take (N.of_nat n) todo').
+      rewrite vals_app, vals_single, take_app_split.
+      assert (Ht : take (N.min (to - len done * PP) (len (e_vals e))) (e_vals e) = take (to - len done * PP) (e_vals e)).
+      { destruct (N.le_gt_cases (to - len done * PP) (len (e_vals e))); [now rewrite N.min_l by lia|].
+        rewrite N.min_r by lia. rewrite !take_all; auto; lia. }
+      rewrite Ht. clear Ht.
+      destruct n as [|n'].
+      + cbn [seqN read_pages bind]. now rewrite take_0, vals_nil, take_nil.
+      + assert (Hne : todo' <> []).
+        { intros ->. rewrite len_cons, len_nil in Hle. lia. }
+        assert (Hfe : allfull (done ++ [e])).
+        { apply (Hn (done ++ [e]) todo'); [|exact Hne]. rewrite Hm. now rewrite <- app_assoc. }
+        specialize (IH (done ++ [e]) todo').
+        rewrite len_app, len_cons, len_nil in IH. replace (len done + (1 + 0)) with (len done + 1) in IH by lia.
+        rewrite IH; [|rewrite Hm; now rewrite <- app_assoc|exact Hfe|rewrite len_cons in Hle; lia].
+        cbn [bind]. f_equal. f_equal. f_equal.
+        apply allfull_app in Hfe as [_ Hfe]. inversion Hfe as [|? ? Hfull _]. rewrite Hfull. lia.
+  Qed.
+
+  Lemma collect_view s hd ents mem : InvG s hd ents mem ->
+    cv_collect T size dec decompress s = Ok (view s mem).
+  Proof.
+    intros HI. destruct (mem_wf _ _ _ _ HI) as (Mc & Mo & Mn).
+    pose proof HI as (B1 & B2 & B3 & B4 & B5 & B6 & B7 & B8 & B9 & B10 & B11 & B12).
+    unfold cv_collect, cv_len, view.
+    destruct (s_stored_len s + len (s_pushed s) =? 0) eqn:E0.
+    - apply N.eqb_eq in E0. assert (s_stored_len s = 0) by lia. assert (len (s_pushed s) = 0) by lia.
+      rewrite H, take_0, (len_0_nil _ H0). reflexivity.
+    - destruct (0 <? s_stored_len s) eqn:E1.
+      2:{ apply N.ltb_ge in E1. assert (s_stored_len s = 0) by lia. rewrite H, take_0. reflexivity. }
+      apply N.ltb_lt in E1.
+      assert (Hme : mem = ents).
+      { destruct B11 as [[_ ?]|[_ Hm0]]; [auto|]. rewrite Hm0 in B12. unfold vals in B12. cbn in B12. rewrite len_nil in B12. lia. }
+      pose proof PP_pos as Hpp. pose proof (vals_le mem Mo) as Hvl.
+      set (ep := (s_stored_len s - 1) / PP).
+      assert (Hep : ep * PP <= s_stored_len s - 1 < (ep + 1) * PP).
+      { pose proof (N.div_mod (s_stored_len s - 1) PP ltac:(lia)). pose proof (N.mod_lt (s_stored_len s - 1) PP ltac:(lia)).
+        subst ep. nia. }
+      assert (Hn : ep + 1 <= len mem) by nia.
+      rewrite B10, B4, <- Hme.
+      pose proof (read_pages_spec (map CB (header_to_bytes hd)) mem (s_stored_len s)
+                    ltac:(now rewrite len_map, len_header_to_bytes) Mc Mo Mn (N.to_nat (ep + 1)) [] mem
+                    eq_refl ltac:(constructor) ltac:(rewrite N2Nat.id; exact Hn)) as RP.
+      rewrite len_nil in RP. rewrite RP. cbn [bind]. f_equal. f_equal.
+      rewrite N2Nat.id. replace (s_stored_len s - 0 * PP) with (s_stored_len s) by lia.
+      rewrite <- (take_drop (ep + 1) mem) at 2. rewrite vals_app, take_app_split.
+      destruct (N.eq_dec (ep + 1) (len mem)) as [Heq|Hneq].
+      + rewrite (drop_all (ep + 1) mem) by lia. now rewrite vals_nil, take_nil, app_nil_r.
+      + assert (Hf : allfull (take (ep + 1) mem)).
+        { apply (Mn (take (ep + 1) mem) (drop (ep + 1) mem)); [symmetry; apply take_drop|].
+          intros Hd. apply (f_equal len) in Hd. rewrite len_drop, len_nil in Hd. lia. }
+        rewrite (vals_allfull _ Hf), len_take, N.min_l by lia.
+        replace (s_stored_len s - (ep + 1) * PP) with 0 by lia. rewrite take_0. now rewrite app_nil_r.
+  Qed.
+  (* ==== C04 (compressed): change records, commit, rollback ============================================== *)
+  Notation parse_change := (parse_change T size dec).
+  Notation rd_values := (rd_values T size dec).
+  Notation cv_commit := (cv_commit T size enc dec compress decompress).
+  Notation cv_rollback := (cv_rollback T size dec).
+
+  Lemma len_u64b v : len (u64b v) = 8.
+  Proof. unfold u64b. now rewrite le_enc_len. Qed.
+
+  Lemma rd_u64_app v rest pos : v < two64 -> pos + 8 < two64 ->
+    rd_u64 (u64b v ++ rest, pos) = Ok (v, (rest, pos + 8)).
+  Proof.
+    intros Hv Hp. unfold rd_u64, check_remaining. cbn [fst snd].
+    replace (two64 <=? pos + 8) with false by (symmetry; apply N.leb_gt; lia).
+    replace (len (u64b v ++ rest) <? 8) with false
+      by (symmetry; apply N.ltb_ge; rewrite len_app, len_u64b; lia).
+    cbn [bind]. rewrite take_app_exact, drop_app_exact by (now rewrite len_u64b).
+    unfold u64b. change (le_enc 8 v) with (enc_u64 v). now rewrite dec_enc_u64.
+  Qed.
+
+  Lemma rd_values_app l rest pos : pos + size * len l < two64 ->
+    rd_values (values_to_bytes l ++ rest, pos) (len l) = Ok (l, (rest, pos + size * len l)).
+  Proof.
+    intros Hp. unfold CvModel.rd_values, check_remaining. cbn [fst snd].
+    replace (two64 <=? size * len l) with false by (symmetry; apply N.leb_gt; lia).
+    replace (two64 <=? pos + size * len l) with false by (symmetry; apply N.leb_gt; lia).
+    assert (L : len (values_to_bytes l) = size * len l) by (rewrite len_values_to_bytes; lia).
+    replace (len (values_to_bytes l ++ rest) <? size * len l) with false
+      by (symmetry; apply N.ltb_ge; rewrite len_app, L; lia).
+    cbn [bind]. rewrite take_app_exact, drop_app_exact by (now rewrite L).
+    unfold len at 1. rewrite Nat2N.id.
+    rewrite <- (app_nil_r (values_to_bytes l)). now rewrite decode_vals_bytes.
+  Qed.
+
+  Lemma rd_skip_app (x rest : list N) pos : pos + len x < two64 ->
+    rd_skip (x ++ rest, pos) (len x) = Ok (rest, pos + len x).
+  Proof.
+    intros Hp. unfold rd_skip, check_remaining. cbn [fst snd].
+    replace (two64 <=? pos + len x) with false by (symmetry; apply N.leb_gt; lia).
+    replace (len (x ++ rest) <? len x) with false by (symmetry; apply N.ltb_ge; rewrite len_app; lia).
+    cbn [bind]. now rewrite drop_app_exact.
+  Qed.
+
+  (* parse_change_data o serialize_changes = id on the fields rollback uses *)
+  Lemma parse_ser a b c tv pp pu :
+    a < two64 -> b < two64 -> c < two64 -> len tv <= b ->
+    48 + size * len tv + size * len pp + size * len pu < two64 ->
+    parse_change (u64b a ++ u64b b ++ u64b c ++ u64b (len tv) ++ values_to_bytes tv
+                  ++ u64b (len pp) ++ values_to_bytes pp ++ u64b (len pu) ++ values_to_bytes pu)
+    = Ok (mkChange T a b (b - len tv) tv pp).
+  Proof.
+    intros Ha Hb Hc Htv Hfit. unfold CvModel.parse_change.
+    assert (T64 : two64 = 18446744073709551616) by reflexivity.
+    pose proof size_pos as Hs0.
+    assert (F1 : len tv < two64) by nia.
+    assert (F2 : len pp < two64) by nia.
+    assert (F3 : len pu < two64) by nia.
+    rewrite rd_u64_app; [|lia|lia]. cbn [bind]. cbv beta iota.
+    rewrite rd_u64_app; [|lia|lia]. cbn [bind]. cbv beta iota.
+    rewrite <- (len_u64b c) at 2. rewrite rd_skip_app; [|rewrite len_u64b; lia]. cbn [bind].
+    rewrite len_u64b.
+    rewrite rd_u64_app; [|lia|lia]. cbn [bind]. cbv beta iota.
+    replace (b <? len tv) with false by (symmetry; apply N.ltb_ge; lia).
+    rewrite rd_values_app; [|lia]. cbn [bind]. cbv beta iota.
+    rewrite rd_u64_app; [|lia|lia]. cbn [bind]. cbv beta iota.
+    rewrite rd_values_app; [|lia]. cbn [bind]. cbv beta iota.
+    rewrite rd_u64_app; [|lia|lia]. cbn [bind]. cbv beta iota.
+    replace (two64 <=? size * len pu) with false by (symmetry; apply N.leb_gt; lia).
+    rewrite <- (app_nil_r (values_to_bytes pu)).
+    replace (size * len pu) with (len (values_to_bytes pu)) by (rewrite len_values_to_bytes; lia).
+    rewrite rd_skip_app; [|rewrite len_values_to_bytes; lia]. cbn [bind]. reflexivity.
+  Qed.
+
+  (* ---- the baseline a commit records its changes against, and a valid record ------------------------------ *)
+  Definition BaseOK (s : cvs) (mem : list ent) (b : list T) : Prop :=
+    s_prev_stored_len s <= len (vals mem) /\
+    b = take (s_prev_stored_len s) (vals mem) ++ s_prev_pushed s.
+
+  Definition RecOK (mem : list ent) (bs : list N) (b : list T) (pst : N) : Prop :=
+    exists ch, parse_change bs = Ok ch /\ ch_prev_stamp T ch = pst /\
+      ch_truncated_start T ch <= len (vals mem) /\
+      b = take (ch_truncated_start T ch) (vals mem) ++ ch_truncated_values T ch ++ ch_prev_pushed T ch /\
+      (ch_truncated_values T ch = [] -> ch_prev_stored_len T ch = ch_truncated_start T ch).
+
+  (* the side condition that makes the u64 fields and cursor arithmetic overflow-free (usize in the code) *)
+  Definition fits (s : cvs) : Prop :=
+    s_prev_stored_len s < two64 /\ s_stored_len s < two64 /\
+    48 + size * s_prev_stored_len s + size * len (s_prev_pushed s) + size * len (s_pushed s) < two64.
+
+  Lemma update_stamp_InvG s hd ents mem st : InvG s hd ents mem -> st < two64 ->
+    InvG (update_stamp s st) hd ents mem.
+  Proof.
+    intros HI Hst. unfold update_stamp. destruct (h_stamp (s_hdr s) =? st); [exact HI|].
+    pose proof HI as (B1 & B2 & B3 & B4 & B5 & B6 & B7 & B8 & B9 & B10 & B11 & B12).
+    unfold InvG. cbn [set_hdr s_hdr s_hdr_mod s_data s_pg s_stored_len].
+    split; [apply hdr_ok_stamp; auto|]. split; [exact B2|]. split; [discriminate|]. tauto.
+  Qed.
+
+  Lemma update_stamp_stamp (s : cvs) st : cv_stamp (update_stamp s st) = st.
+  Proof.
+    unfold update_stamp, cv_stamp. destruct (h_stamp (s_hdr s) =? st) eqn:E; [now apply N.eqb_eq in E|reflexivity].
+  Qed.
+
+  Lemma InvG_len s s' hd ents mem :
+    s_hdr s' = s_hdr s -> s_hdr_mod s' = s_hdr_mod s -> s_data s' = s_data s -> s_pg s' = s_pg s ->
+    s_stored_len s' <= len (vals mem) -> InvG s hd ents mem -> InvG s' hd ents mem.
+  Proof. unfold InvG. intros -> -> -> -> H. intuition. Qed.
+
+  Lemma take_slice {A} a b (l : list A) : a <= b -> take a l ++ slice a b l = take b l.
+  Proof.
+    intros H. unfold slice. rewrite <- (take_drop a l) at 3. rewrite take_app_split'.
+    destruct (N.le_gt_cases a (len l)).
+    - rewrite (take_all b (take a l)) by (rewrite len_take; lia).
+      rewrite len_take, N.min_l by lia. reflexivity.
+    - rewrite (take_all a l), (drop_all a l) by lia. rewrite !take_nil, !app_nil_r.
+      symmetry. apply take_all. lia.
+  Qed.
+
+  (* write() settles the vector: everything is stored, nothing is buffered *)
+  Lemma write_settled s hd ents mem hints s' r :
+    InvG s hd ents mem -> cv_write s hints = (s', r) ->
+    r = Panic \/ exists wb ents', r = Ok wb /\ InvG s' (s_hdr s) ents' ents' /\ vals ents' = view s mem /\
+      s_stored_len s' = len (vals ents') /\ s_pushed s' = [] /\ s_hdr s' = s_hdr s /\
+      s_prev_pushed s' = s_prev_pushed s /\ s_prev_stored_len s' = s_prev_stored_len s /\
+      s_ssc s' = s_ssc s /\ s_changes s' = s_changes s.
+  Proof.
+    intros HI HW.
+    assert (Hprev : s_prev_pushed s' = s_prev_pushed s /\ s_prev_stored_len s' = s_prev_stored_len s /\
+                    s_ssc s' = s_ssc s /\ s_changes s' = s_changes s).
+    { clear HI. unfold CvModel.cv_write in HW.
+      destruct (write_header_if_needed T s) as [s1 r1] eqn:E1.
+      assert (P1 : s_prev_pushed s1 = s_prev_pushed s /\ s_prev_stored_len s1 = s_prev_stored_len s /\
+                   s_ssc s1 = s_ssc s /\ s_changes s1 = s_changes s).
+      { unfold write_header_if_needed in E1. destruct (s_hdr_mod s); [|inversion E1; auto].
+        destruct (lift_r _); inversion E1; auto. }
+      destruct P1 as (<- & <- & <- & <-).
+      destruct r1; try (inversion HW; subst; auto; fail).
+      destruct (write_plan _ _ _ _ _) as [[|ta spi partial]| |]; try (inversion HW; subst; auto; fail).
+      destruct (fast_path _ _ _) as [[pg pl0]|].
+      - unfold write_fast in HW.
+        repeat (match type of HW with
+                | context [match ?x with _ => _ end] => destruct x
+                end; try (inversion HW; subst; cbn; auto; fail)).
+      - destruct (match partial with Some _ => _ | None => _ end); try (inversion HW; subst; auto; fail).
+        unfold write_slow in HW.
+        repeat (match type of HW with
+                | context [match ?x with _ => _ end] => destruct x
+                | context [let '(_, _) := ?x in _] => destruct x
+                end; try (inversion HW; subst; cbn; auto; fail)). }
+    destruct (write_ok _ _ _ _ _ _ _ HI HW) as [->|[(-> & I' & W1 & W2 & W3 & Wme & W4 & W5 & W6 & W7)|(ents' & -> & I' & W1 & W2 & W3 & W4 & W5)]];
+      [now left|right; exists false, ents|right; exists true, ents'].
+    - subst mem. split; [reflexivity|]. split; [exact I'|].
+      unfold view. rewrite W2, W3, app_nil_r, take_all by lia. repeat split; try tauto; congruence.
+    - split; [reflexivity|]. split; [exact I'|]. repeat split; try tauto; congruence.
+  Qed.
+  (* ---- commit = stamped_write_with_changes with retention > 0 ---------------------------------------------- *)
+  Lemma lookup_app_last dir st d :
+    Forall (fun f => fst f <> st) dir -> lookup_file (dir ++ [(st, d)]) st = Some d.
+  Proof.
+    induction 1 as [|[k v] t Hk Ht IH]; cbn [app lookup_file].
+    - now rewrite N.eqb_refl.
+    - cbn [fst] in Hk. replace (k =? st) with false by (symmetry; now apply N.eqb_neq). exact IH.
+  Qed.
+
+  Lemma Forall_drop {A} (P : A -> Prop) n l : Forall P l -> Forall P (drop n l).
+  Proof.
+    intros H. rewrite <- (take_drop n l) in H. apply Forall_app in H. tauto.
+  Qed.
+
+  Lemma commit_ok s hd ents mem b st hints s' r :
+    InvG s hd ents mem -> BaseOK s mem b -> s_ssc s <> 0 -> st < two64 -> fits s ->
+    cv_commit s st hints = (s', r) ->
+    r = Panic \/ exists wb ents' dir bs,
+      r = Ok wb /\ InvG s' (s_hdr s') ents' ents' /\ s_hdr_mod s' = false /\
+      vals ents' = view s mem /\ s_stored_len s' = len (vals ents') /\ s_pushed s' = [] /\
+      cv_stamp s' = st /\ s_ssc s' = s_ssc s /\
+      BaseOK s' ents' (view s mem) /\
+      s_changes s' = Some dir /\ lookup_file dir st = Some bs /\
+      RecOK ents' bs b (cv_stamp s).
+  Proof.
+    intros HI (Bp & Bb) Hk Hst (F1 & F2 & F3) HC.
+    pose proof HI as (B1 & B2 & B3 & B4 & B5 & B6 & B7 & B8 & B9 & B10 & B11 & B12).
+    unfold CvModel.cv_commit in HC.
+    replace (s_ssc s =? 0) with false in HC by (symmetry; now apply N.eqb_neq).
+    rewrite (serialize_eq _ _ _ _ HI) in HC.
+    set (data := ser_bytes s (ser_tv s mem)) in *.
+    set (s1 := set_roll s (s_ssc s) (save_change_file T s st data)) in HC.
+    assert (HI1 : InvG s1 hd ents mem) by (eapply InvG_same; [..|exact HI]; reflexivity).
+    pose proof (update_stamp_InvG s1 hd ents mem st HI1 Hst) as HI1'.
+    destruct (cv_write (update_stamp s1 st) hints) as [s2 r2] eqn:EW.
+    destruct (write_settled _ _ _ _ _ _ _ HI1' EW)
+      as [->|(wb & ents' & -> & I2 & V2 & L2 & P2 & H2 & Q1 & Q2 & Q3 & Q4)]; [inversion HC; now left|].
+    inversion HC; subst s' r. right.
+    (* the record *)
+    set (tc := s_prev_stored_len s - s_stored_len s) in *.
+    set (tv := ser_tv s mem) in *.
+    assert (Ltv : len tv = tc).
+    { unfold tv, ser_tv. fold tc. destruct (0 <? tc) eqn:E.
+      - apply N.ltb_lt in E. rewrite len_slice. subst tc. lia.
+      - apply N.ltb_ge in E. rewrite len_nil. lia. }
+    assert (Hstamp : cv_stamp s < two64).
+    { destruct B1 as (V & _). unfold valid_header in V. rewrite !andb_true_iff in V.
+      destruct V as ((_ & V) & _). now apply N.ltb_lt in V. }
+    assert (Hparse : parse_change data =
+                     Ok (mkChange T (cv_stamp s) (s_prev_stored_len s) (s_prev_stored_len s - len tv) tv (s_prev_pushed s))).
+    { unfold data, ser_bytes. fold tv. fold tc. rewrite <- Ltv. apply parse_ser; auto; try lia;
+      try (rewrite Ltv; subst tc; pose proof size_pos; nia). }
+    assert (Hview1 : view (update_stamp s1 st) mem = view s mem).
+    { unfold view, update_stamp. destruct (_ =? st); reflexivity. }
+    rewrite Hview1 in V2.
+    assert (Hts : s_prev_stored_len s - len tv = N.min (s_prev_stored_len s) (s_stored_len s)) by (rewrite Ltv; subst tc; lia).
+    set (ts := N.min (s_prev_stored_len s) (s_stored_len s)) in *.
+    assert (Hvlen : s_stored_len s <= len (vals ents')).
+    { rewrite V2. unfold view. rewrite len_app, len_take. lia. }
+    assert (Htake : take ts (vals ents') = take ts (vals mem)).
+    { rewrite V2. unfold view. rewrite take_app_le by (rewrite len_take; subst ts; lia).
+      apply take_take. subst ts. lia. }
+    set (dirf := filter (fun f => (fst f <? st) && (fst f <=? cv_stamp s))
+                        match s_changes s with Some d => d | None => [] end) in *.
+    exists wb, ents', (drop (len dirf - (s_ssc s - 1)) dirf ++ [(st, data)]), data.
+    assert (Hh2 : s_hdr s2 = s_hdr (update_stamp s1 st)) by exact H2.
+    cbn [save_prev set_prev s_hdr s_hdr_mod s_data s_pg s_stored_len s_pushed s_ssc s_changes
+         s_prev_pushed s_prev_stored_len cv_stamp].
+    split; [reflexivity|].
+    split.
+    { rewrite Hh2. eapply InvG_same; [..|exact I2]; reflexivity. }
+    split.
+    { destruct I2 as (_ & _ & I3 & _). (* hdr_mod: write leaves it false *)
+      (* from write_ok: the header was written *)
+      clear - EW. unfold CvModel.cv_write in EW.
+      destruct (write_header_if_needed T (update_stamp s1 st)) as [sx rx] eqn:E1.
+      assert (M : rx = Ok tt -> s_hdr_mod sx = false).
+      { unfold write_header_if_needed in E1. destruct (s_hdr_mod (update_stamp s1 st)) eqn:Em.
+        - destruct (lift_r _); inversion E1; subst; try discriminate. intros _. reflexivity.
+        - inversion E1; subst. intros _. exact Em. }
+      destruct rx as [[]| |]; try (inversion EW; fail). specialize (M eq_refl).
+      destruct (write_plan _ _ _ _ _) as [[|ta spi partial]| |]; try (inversion EW; subst; auto; fail).
+      destruct (fast_path _ _ _) as [[pg pl0]|].
+      - unfold write_fast in EW.
+        repeat (match type of EW with
+                | context [match ?x with _ => _ end] => destruct x
+                end; try (inversion EW; subst; cbn; auto; fail)).
+      - destruct (match partial with Some _ => _ | None => _ end); try (inversion EW; subst; auto; fail).
+        unfold write_slow in EW.
+        repeat (match type of EW with
+                | context [match ?x with _ => _ end] => destruct x
+                | context [let '(_, _) := ?x in _] => destruct x
+                end; try (inversion EW; subst; cbn; auto; fail)). }
+    split; [exact V2|]. split; [exact L2|]. split; [exact P2|].
+    split; [unfold cv_stamp, save_prev; cbn [set_prev s_hdr]; fold (cv_stamp s2); unfold cv_stamp; rewrite Hh2; apply update_stamp_stamp|].
+    split; [rewrite Q3; unfold update_stamp; destruct (_ =? st); reflexivity|].
+    split.
+    { unfold BaseOK, save_prev. cbn [s_prev_stored_len s_prev_pushed set_prev]. split; [lia|].
+      rewrite L2, take_all, app_nil_r by lia. symmetry. exact V2. }
+    split.
+    { rewrite Q4. unfold update_stamp. destruct (_ =? st); reflexivity. }
+    split.
+    { apply lookup_app_last. apply Forall_drop. unfold dirf. apply Forall_forall. intros f Hf.
+      apply filter_In in Hf as [_ Hf]. apply andb_true_iff in Hf as [Hf _]. apply N.ltb_lt in Hf. lia. }
+    exists (mkChange T (cv_stamp s) (s_prev_stored_len s) (s_prev_stored_len s - len tv) tv (s_prev_pushed s)).
+    cbn [ch_prev_stamp ch_truncated_start ch_truncated_values ch_prev_pushed ch_prev_stored_len].
+    rewrite Hts. rewrite Hts in Hparse. split; [exact Hparse|]. split; [reflexivity|].
+    split; [subst ts; lia|].
+    split.
+    { rewrite Htake, Bb. rewrite app_assoc. f_equal.
+      unfold tv, ser_tv. fold tc. destruct (0 <? tc) eqn:E.
+      - apply N.ltb_lt in E. rewrite N.min_l by lia.
+        replace ts with (s_stored_len s) by (subst ts tc; lia).
+        symmetry. apply take_slice. subst tc. lia.
+      - apply N.ltb_ge in E. rewrite app_nil_r. f_equal. subst ts tc. lia. }
+    intros Hnil. rewrite Hnil, len_nil in Ltv. subst ts tc. lia.
+  Qed.
+
+  (* ---- rollback() ---------------------------------------------------------------------------------------- *)
+  Lemma rollback_ok s hd ents mem b pst dir bs s' r :
+    InvG s hd ents mem -> s_changes s = Some dir -> lookup_file dir (cv_stamp s) = Some bs ->
+    RecOK mem bs b pst -> pst < two64 ->
+    cv_rollback s = (s', r) ->
+    (exists ch, parse_change bs = Ok ch /\
+      ((ch_truncated_start T ch <= s_stored_len s /\ r = Ok tt /\ InvG s' hd ents mem /\ view s' mem = b /\
+        cv_stamp s' = pst /\ BaseOK s' mem b /\ s_changes s' = s_changes s /\ s_ssc s' = s_ssc s)
+       \/ (s_stored_len s < ch_truncated_start T ch /\ r = Err EIndexTooHigh /\ s' = s))).
+  Proof.
+    intros HI Hd Hl (ch & Hp & Hps & Hts & Hb & Hnil) Hpst HR.
+    pose proof HI as (B1 & B2 & B3 & B4 & B5 & B6 & B7 & B8 & B9 & B10 & B11 & B12).
+    exists ch. split; [exact Hp|].
+    unfold CvModel.cv_rollback in HR. rewrite Hd, Hl in HR. unfold cv_undo in HR. rewrite Hp in HR.
+    destruct (s_stored_len s <? ch_truncated_start T ch) eqn:Eg.
+    { apply N.ltb_lt in Eg. inversion HR; subst s' r. right. repeat split; auto. }
+    apply N.ltb_ge in Eg. left. split; [exact Eg|].
+    rewrite (real_stored_len_mem _ _ _ _ HI) in HR.
+    pose proof (update_stamp_InvG s hd ents mem pst HI Hpst) as HIu. rewrite <- Hps in HIu.
+    assert (Hst' : cv_stamp (update_stamp s (ch_prev_stamp T ch)) = pst) by (rewrite update_stamp_stamp; exact Hps).
+    assert (Hroll : s_changes (update_stamp s (ch_prev_stamp T ch)) = s_changes s /\
+                    s_ssc (update_stamp s (ch_prev_stamp T ch)) = s_ssc s).
+    { unfold update_stamp. destruct (_ =? _); split; reflexivity. }
+    destruct (ch_truncated_values T ch) as [|t0 tvr] eqn:Etv.
+    - specialize (Hnil eq_refl). inversion HR; subst s' r. clear HR.
+      cbn [save_rollback_state set_prev set_pushed set_stored_len s_pushed s_stored_len s_hdr s_hdr_mod
+           s_data s_pg s_ssc s_changes s_prev_pushed s_prev_stored_len cv_stamp].
+      split; [reflexivity|].
+      split; [eapply InvG_len; [..|exact HIu]; cbn; try reflexivity; lia|].
+      split; [unfold view; cbn; rewrite Hnil; now rewrite Hb|].
+      split; [exact Hst'|].
+      split; [|tauto].
+      unfold BaseOK. cbn. rewrite Hnil. split; [lia|exact Hb].
+    - inversion HR; subst s' r. clear HR.
+      cbn [save_rollback_state set_prev set_pushed set_stored_len s_pushed s_stored_len s_hdr s_hdr_mod
+           s_data s_pg s_ssc s_changes s_prev_pushed s_prev_stored_len cv_stamp].
+      rewrite N.min_l by lia.
+      split; [reflexivity|].
+      split; [eapply InvG_len; [..|exact HIu]; cbn; try reflexivity; lia|].
+      split; [unfold view; cbn; now rewrite Hb|].
+      split; [exact Hst'|].
+      split; [|tauto].
+      unfold BaseOK. cbn. split; [lia|exact Hb].
+  Qed.
+  (* ---- edits between commits: push / truncate ------------------------------------------------------------- *)
+  Definition is_edit (o : op) : Prop := match o with Push _ | Trunc _ => True | _ => False end.
+  Definition is_push (o : op) : Prop := match o with Push _ => True | _ => False end.
+
+  Definition same_roll (s s' : cvs) : Prop :=
+    s_hdr s' = s_hdr s /\ s_prev_pushed s' = s_prev_pushed s /\ s_prev_stored_len s' = s_prev_stored_len s /\
+    s_ssc s' = s_ssc s /\ s_changes s' = s_changes s.
+
+  Lemma edit_step s hd ents mem o : InvG s hd ents mem -> is_edit o ->
+    InvG (fst (cv_step s o)) hd ents mem /\ same_roll s (fst (cv_step s o)) /\
+    s_stored_len (fst (cv_step s o)) <= s_stored_len s /\
+    (is_push o -> s_stored_len (fst (cv_step s o)) = s_stored_len s).
+  Proof.
+    intros HI He. pose proof HI as (B1 & B2 & B3 & B4 & B5 & B6 & B7 & B8 & B9 & B10 & B11 & B12).
+    destruct o as [vs|n| | | | | | | ]; try contradiction; cbn [CvModel.cv_step fst].
+    - split; [exact HI|]. unfold same_roll. cbn. repeat split; auto; lia.
+    - unfold cv_truncate.
+      destruct (_ <=? n); [split; [exact HI|]; unfold same_roll; repeat split; auto; try lia; contradiction|].
+      destruct (n <=? s_stored_len s) eqn:E2; destruct (n <? s_stored_len s) eqn:E3;
+        (split; [eapply InvG_len; [..|exact HI]; cbn; try reflexivity; try lia|];
+         unfold same_roll; cbn; repeat split; auto; try lia; try contradiction).
+  Qed.
+
+  Lemma edits_run : forall h s hd ents mem, InvG s hd ents mem -> Forall is_edit h ->
+    InvG (cv_run s h) hd ents mem /\ same_roll s (cv_run s h) /\
+    s_stored_len (cv_run s h) <= s_stored_len s /\
+    (Forall is_push h -> s_stored_len (cv_run s h) = s_stored_len s).
+  Proof.
+    induction h as [|o t IH]; intros s hd ents mem HI He.
+    - cbn. split; [exact HI|]. split; [unfold same_roll; repeat split; reflexivity|]. split; [lia|reflexivity].
+    - inversion He as [|? ? Ho Ht]; subst.
+      destruct (edit_step s hd ents mem o HI Ho) as (I1 & (R1 & R2 & R3 & R4 & R5) & L1 & P1).
+      unfold CvModel.cv_run. cbn [fold_left]. fold (cv_run (fst (cv_step s o)) t).
+      destruct (IH _ _ _ _ I1 Ht) as (I2 & (S1 & S2 & S3 & S4 & S5) & L2 & P2).
+      split; [exact I2|]. split; [unfold same_roll; repeat split; congruence|]. split; [lia|].
+      intros Hp. inversion Hp as [|? ? Hpo Hpt]; subst. rewrite (P2 Hpt). exact (P1 Hpo).
+  Qed.
+
+  (* ---- C04 for the compressed format: one commit, one rollback, at every baseline ------------------------------ *)
+  (* the decidable class in which rollback() refuses a retained record: the vector's stored length lies
+     below the record's truncation start (after undoing a truncating commit without a write() in between,
+     or after an uncommitted truncation) *)
+  Definition rollback_refuses (s : cvs) : bool :=
+    match s_changes s with
+    | Some dir => match lookup_file dir (cv_stamp s) with
+                  | Some bs => match parse_change bs with
+                               | Ok ch => s_stored_len s <? ch_truncated_start T ch
+                               | _ => false
+                               end
+                  | None => false
+                  end
+    | None => false
+    end.
+
+  Theorem rollback_step s hd ents mem b e1 st hints s2 wb e2 s4 r :
+    InvG s hd ents mem -> BaseOK s mem b -> s_ssc s <> 0 -> st < two64 ->
+    Forall is_edit e1 -> Forall is_edit e2 -> fits (cv_run s e1) ->
+    cv_commit (cv_run s e1) st hints = (s2, Ok wb) ->
+    cv_rollback (cv_run s2 e2) = (s4, r) ->
+    (rollback_refuses (cv_run s2 e2) = false /\ r = Ok tt /\
+       cv_collect T size dec decompress s4 = Ok b /\ cv_stamp s4 = cv_stamp s /\
+       s_ssc s4 = s_ssc s /\
+       exists hd4 ents4, InvG s4 hd4 ents4 ents4 /\ BaseOK s4 ents4 b /\ view s4 ents4 = b)
+    \/ (rollback_refuses (cv_run s2 e2) = true /\ r = Err EIndexTooHigh /\ s4 = cv_run s2 e2).
+  Proof.
+    intros HI HB Hk Hst He1 He2 Hfit HC HR.
+    destruct (edits_run e1 s hd ents mem HI He1) as (I1 & (S1 & S2 & S3 & S4 & S5) & _ & _).
+    assert (HB1 : BaseOK (cv_run s e1) mem b) by (unfold BaseOK; now rewrite S2, S3).
+    assert (Hk1 : s_ssc (cv_run s e1) <> 0) by now rewrite S4.
+    destruct (commit_ok _ _ _ _ _ _ _ _ _ I1 HB1 Hk1 Hst Hfit HC)
+      as [Hp|(wb' & ents' & dir & bs & _ & I2 & M2 & V2 & L2 & P2 & St2 & K2 & B2' & C2 & Lk & Rec)]; [discriminate|].
+    destruct (edits_run e2 s2 _ ents' ents' I2 He2) as (I3 & (T1 & T2 & T3 & T4 & T5) & L3 & _).
+    set (s3 := cv_run s2 e2) in *.
+    assert (Hst3 : cv_stamp s3 = st) by (unfold cv_stamp; rewrite T1; exact St2).
+    assert (Hp1 : cv_stamp (cv_run s e1) = cv_stamp s) by (unfold cv_stamp; now rewrite S1).
+    assert (Hps : cv_stamp s < two64).
+    { destruct HI as ((V & _) & _). unfold valid_header in V. rewrite !andb_true_iff in V.
+      destruct V as ((_ & V) & _). now apply N.ltb_lt in V. }
+    rewrite Hp1 in Rec.
+    destruct (rollback_ok s3 _ ents' ents' b (cv_stamp s) dir bs s4 r I3 ltac:(now rewrite T5)
+                ltac:(now rewrite Hst3) Rec Hps HR)
+      as (ch & Hpc & [(G & -> & I4 & V4 & St4 & B4 & C4 & K4)|(G & -> & ->)]).
+    - left. split.
+      { unfold rollback_refuses. rewrite T5, C2, Hst3, Lk, Hpc. apply N.ltb_ge. exact G. }
+      split; [reflexivity|].
+      split; [rewrite (collect_view _ _ _ _ I4); now rewrite V4|].
+      split; [exact St4|]. split; [rewrite K4, T4, K2; exact S4|].
+      eexists _, ents'. split; [|split; [exact B4|exact V4]].
+      (* the header on disk is the one recorded by InvG *)
+      pose proof I4 as (_ & _ & _ & _ & _ & _ & _ & _ & _ & _ & [[_ Hme]|[Hc0 Hm0]] & _); exact I4.
+    - right. split; [|split; reflexivity].
+      unfold rollback_refuses. rewrite T5, C2, Hst3, Lk, Hpc. apply N.ltb_lt. exact G.
+  Qed.
+
+  (* right after a commit (only pushes in between) the rollback always succeeds *)
+  Corollary rollback_after_commit s hd ents mem b e1 st hints s2 wb e2 s4 r :
+    InvG s hd ents mem -> BaseOK s mem b -> s_ssc s <> 0 -> st < two64 ->
+    Forall is_edit e1 -> Forall is_push e2 -> fits (cv_run s e1) ->
+    cv_commit (cv_run s e1) st hints = (s2, Ok wb) ->
+    cv_rollback (cv_run s2 e2) = (s4, r) ->
+    r = Ok tt /\ cv_collect T size dec decompress s4 = Ok b /\ cv_stamp s4 = cv_stamp s.
+  Proof.
+    intros HI HB Hk Hst He1 Hp2 Hfit HC HR.
+    assert (He2 : Forall is_edit e2).
+    { eapply Forall_impl; [|exact Hp2]. intros [ ]; cbn; tauto. }
+    destruct (rollback_step _ _ _ _ _ _ _ _ _ _ _ _ _ HI HB Hk Hst He1 He2 Hfit HC HR)
+      as [(_ & -> & Hc & Hs & _)|(Href & _ & _)]; [auto|exfalso].
+    (* refusal is impossible: stored_len is still the committed length *)
+    destruct (edits_run e1 s hd ents mem HI He1) as (I1 & (S1 & S2 & S3 & S4 & S5) & _ & _).
+    assert (HB1 : BaseOK (cv_run s e1) mem b) by (unfold BaseOK; now rewrite S2, S3).
+    assert (Hk1 : s_ssc (cv_run s e1) <> 0) by now rewrite S4.
+    destruct (commit_ok _ _ _ _ _ _ _ _ _ I1 HB1 Hk1 Hst Hfit HC)
+      as [Hp|(wb' & ents' & dir & bs & _ & I2 & M2 & V2 & L2 & P2 & St2 & K2 & B2' & C2 & Lk & (ch & Hpc & _ & Hts & _))]; [discriminate|].
+    destruct (edits_run e2 s2 _ ents' ents' I2 He2) as (I3 & (T1 & T2 & T3 & T4 & T5) & _ & L3).
+    unfold rollback_refuses in Href. unfold cv_stamp in Href. rewrite T5, C2, T1 in Href.
+    fold (cv_stamp s2) in Href. rewrite St2, Lk, Hpc in Href.
+    apply N.ltb_lt in Href. rewrite (L3 Hp2), L2 in Href. lia.
+  Qed.
+
+  (* continuation: a successful rollback leaves a state from which every theorem above applies again *)
+  Theorem rollback_continuation s4 hd4 ents4 b :
+    InvG s4 hd4 ents4 ents4 -> view s4 ents4 = b ->
+    exists a, a_cur a = b /\ a_stamp a = cv_stamp s4 /\ R s4 a.
+  Proof.
+    intros HI Hv.
+    exists (mkSpec b (cv_stamp s4) (vals ents4) (h_stamp hd4)). split; [reflexivity|]. split; [reflexivity|].
+    exists hd4, ents4, ents4. split; [exact HI|]. cbn. repeat split; auto.
+  Qed.
+
+  (* ---- C07_lossless at full strength: what a READ returns -------------------------------------------------------- *)
+  Lemma R_collect s a : R s a -> cv_collect T size dec decompress s = Ok (a_cur a).
+  Proof.
+    intros (hd & ents & mem & HI & R1 & _). rewrite (collect_view _ _ _ _ HI). now rewrite R1.
+  Qed.
+
+  Theorem lossless h s0 :
+    cv_import T size fmt vver [] [] = Ok s0 -> Forall op_ok h -> no_panic s0 h ->
+    cv_collect T size dec decompress (cv_run s0 h) = Ok (a_cur (spec_run spec_init h)).
+  Proof.
+    intros Hi Hok Hnp. apply R_collect.
+    exact (proj1 (run_R h s0 spec_init (init_R s0 Hi) Hok Hnp)).
+  Qed.
+
+  (* ---- C16 (compressed): failed rollback leaves the vector unchanged; the change directory ------------------ *)
+  Lemma rollback_fail_unchanged (s s' : cvs) e : cv_rollback s = (s', Err e) -> s' = s.
+  Proof.
+    unfold CvModel.cv_rollback, cv_undo. intros H.
+    destruct (s_changes s) as [dir|]; [|now inversion H].
+    destruct (lookup_file dir (cv_stamp s)) as [bs|]; [|now inversion H].
+    destruct (parse_change bs) as [ch| |]; try (now inversion H).
+    destruct (s_stored_len s <? ch_truncated_start T ch); [now inversion H|].
+    destruct (ch_truncated_values T ch); inversion H.
+  Qed.
+
+  Lemma len_filter_le {A} (f : A -> bool) l : len (filter f l) <= len l.
+  Proof.
+    induction l as [|x l IH]; [cbn; lia|]. cbn [filter]. destruct (f x); rewrite ?len_cons; lia.
+  Qed.
+
+  (* save_change_file: at most k records remain, the new one is present, every other one is older than
+     the new stamp and not newer than the current stamp (records of an abandoned future are dropped) *)
+  Lemma save_change_file_spec (s : cvs) stamp data : s_ssc s <> 0 ->
+    exists d, save_change_file T s stamp data = Some d /\ len d <= s_ssc s /\
+      lookup_file d stamp = Some data /\
+      Forall (fun f => f = (stamp, data) \/ (fst f < stamp /\ fst f <= cv_stamp s)) d.
+  Proof.
+    intros Hk. unfold save_change_file. eexists. split; [reflexivity|].
+    set (files := filter _ _).
+    assert (Hf : Forall (fun f => fst f < stamp /\ fst f <= cv_stamp s) files).
+    { apply Forall_forall. intros f Hin. apply filter_In in Hin as [_ Hin].
+      apply andb_true_iff in Hin as [H1 H2]. apply N.ltb_lt in H1. apply N.leb_le in H2. auto. }
+    split.
+    { rewrite len_app, len_drop, len_cons, len_nil. lia. }
+    split.
+    { apply lookup_app_last. apply Forall_drop. eapply Forall_impl; [|exact Hf]. cbn. intros f [H _]. lia. }
+    apply Forall_app. split.
+    - apply Forall_drop. eapply Forall_impl; [|exact Hf]. cbn. auto.
+    - constructor; [now left|constructor].
   Qed.
 End Inv.
